@@ -347,8 +347,15 @@ func main() {
 	}
 	sort.Strings(order)
 	nConfirmed := 0
-	for gi, k := range order {
-		if gi >= 6 {
+	// A group whose minimised case does not fail again in a fresh process (nor with its worker's history, nor in
+	// any of nine replays) is not reported - and it must not hide the other groups either: state that lives in the
+	// process of the code under test (a registry keyed by addresses, say) combined with this harness killing the
+	// tasks of a finished case can produce such unrepeatable failures next to a perfectly repeatable one.
+	// Verdict rule: if at least one group is confirmed and reported, that is the verdict; if none is and some
+	// group could not be reproduced, the run ends as trouble (exit 2), never as a VIOLATION.
+	var unconfirmed []string
+	for _, k := range order {
+		if nConfirmed >= 6 || len(unconfirmed) >= 4 {
 			break
 		}
 		v := groups[k]
@@ -409,7 +416,8 @@ func main() {
 			if rr != nil {
 				got = rr.Violation
 			}
-			die2("DETERMINISM BUG in the harness: fresh-process replay of %s gave %q, sweep gave %q", path, got, mr.Violation)
+			unconfirmed = append(unconfirmed, fmt.Sprintf("fresh-process replay of %s gave %q, sweep gave %q", path, got, mr.Violation))
+			continue
 		}
 		nConfirmed++
 		if kf := matchKnown(known, prop, mr); kf != "" {
@@ -437,6 +445,13 @@ func main() {
 			reported++
 			exit = 1
 		}
+	}
+	if len(unconfirmed) > 0 {
+		if exit == 0 {
+			writeEvidence(prop, *tier, seed, sw, cfg, workers, genReport, raceInfo, reported, len(knownPrinted), time.Since(start))
+			die2("DETERMINISM BUG in the harness (or process-wide state in the code under test): %s", strings.Join(unconfirmed, "; "))
+		}
+		fmt.Printf("note: %d further violation group(s) of the sweep did not fail again in a fresh process and are not reported: %s\n", len(unconfirmed), strings.Join(unconfirmed, "; "))
 	}
 	if sw.trouble != "" && exit == 0 {
 		writeEvidence(prop, *tier, seed, sw, cfg, workers, genReport, raceInfo, reported, len(knownPrinted), time.Since(start))
